@@ -1,5 +1,5 @@
 use std::fs::File as SysFile;
-use std::sync::atomic::{AtomicU64, Ordering};
+use std::sync::atomic::{AtomicBool, AtomicU64, Ordering};
 use std::sync::Arc;
 
 mod arena;
@@ -78,6 +78,10 @@ pub(crate) struct MemTable {
 	/// a batch is appended to the WAL under the commit lock but applied
 	/// outside it, so a rotation can slip in between.
 	oldest_batch_wal: AtomicU64,
+	/// Set by WAL recovery on a memtable that holds only the first part of its
+	/// segment (the segment did not fit into one memtable and the rest went
+	/// into the next one): flushing it must not release the segment.
+	wal_segment_continues: AtomicBool,
 }
 
 impl Default for MemTable {
@@ -96,6 +100,7 @@ impl MemTable {
 			latest_seq_num: AtomicU64::new(0),
 			wal_number: AtomicU64::new(0),
 			oldest_batch_wal: AtomicU64::new(u64::MAX),
+			wal_segment_continues: AtomicBool::new(false),
 		}
 	}
 
@@ -119,6 +124,16 @@ impl MemTable {
 	/// to track which WAL contains its data.
 	pub(crate) fn set_wal_number(&self, wal_number: u64) {
 		self.wal_number.store(wal_number, Ordering::Release);
+	}
+
+	/// Marks this memtable as holding only the first part of its WAL segment.
+	pub(crate) fn set_wal_segment_continues(&self) {
+		self.wal_segment_continues.store(true, Ordering::Release);
+	}
+
+	/// True if the rest of this memtable's WAL segment lives in a later memtable.
+	pub(crate) fn wal_segment_continues(&self) -> bool {
+		self.wal_segment_continues.load(Ordering::Acquire)
 	}
 
 	/// Gets the WAL number associated with this memtable.
